@@ -90,7 +90,7 @@ class Prop(PropBase):
 
     def generate(self, rng, tier):
         out = []
-        base = 20000 + (os.getpid() * 23) % 20000
+        base = 24000 + (os.getpid() % 30) * 100      # a port block of this property only, below the ephemeral range
         L = self.L
         # ---- kernels
         ks = []
